@@ -11,8 +11,7 @@
    reported length, logs every operation and can inject an error at the n-th
    Get/Set (a metamethod that raises).
 
-   int64 arithmetic is explicit ([wrap]); a Go loop that does not terminate is
-   the explicit outcome [Spin]. *)
+   int64 arithmetic is explicit ([wrap]). *)
 From Coq Require Import ZArith List Bool.
 From GV Require Import StrLib.Str.
 Import ListNotations.
@@ -32,6 +31,7 @@ Inductive terr :=
 | TERange2                (* "#2 out of range" *)
 | TETooLarge              (* "interval too large" *)
 | TEWrap                  (* "destination would wrap around" *)
+| TEWrapPos               (* "position would wrap around" (insert when #t = maxinteger) *)
 | TETooMany               (* "too many values to unpack" *)
 | TEInvalid (idx : Z)     (* "invalid value (…) at index idx in table for 'concat'" *)
 | TEInjected.             (* an error raised by a metamethod *)
@@ -39,14 +39,12 @@ Inductive terr :=
 Inductive prog (A : Type) :=
 | Ret (a : A)
 | Fail (e : terr)
-| Spin                                             (* the Go loop never terminates *)
 | OutOfFuel                                        (* model artefact: not enough fuel given *)
 | PLen (t : tid) (cont : Z -> prog A)               (* rt.IntLen *)
 | PGet (t : tid) (k : Z) (cont : value -> prog A)   (* rt.Index(t, IntValue(k)) *)
 | PSet (t : tid) (k : Z) (v : value) (cont : prog A). (* rt.SetIndex *)
 Arguments Ret {A} a.
 Arguments Fail {A} e.
-Arguments Spin {A}.
 Arguments OutOfFuel {A}.
 Arguments PLen {A} t cont.
 Arguments PGet {A} t k cont.
@@ -56,7 +54,6 @@ Fixpoint pbind {A B} (p : prog A) (f : A -> prog B) : prog B :=
   match p with
   | Ret a => f a
   | Fail e => Fail e
-  | Spin => Spin
   | OutOfFuel => OutOfFuel
   | PLen t c => PLen t (fun x => pbind (c x) f)
   | PGet t k c => PGet t k (fun x => pbind (c x) f)
@@ -73,15 +70,12 @@ Fixpoint insert_loop (n : nat) (pos : Z) (val : value) : prog unit :=
 
 Definition insert_im (pos : option Z) (v : value) : prog unit :=
   PLen T1 (fun L =>
+    if L =? maxint then Fail TEWrapPos else      (* #t + 1 is not an integer *)
     match pos with
     | Some p =>
       if (p <=? 0) || (p >? wrap (L + 1)) then Fail TERange2
       else insert_loop (Z.to_nat (L - p + 1)) p v
-    | None =>
-      let p := wrap (L + 1) in
-      (* p <= L only if L+1 wrapped (L = maxint): the loop then runs from minint
-         to maxint and wraps again — it never ends *)
-      if p <=? L then Spin else insert_loop O p v
+    | None => insert_loop O (wrap (L + 1)) v
     end).
 
 (* ---------------------------------------------------------------- remove *)
@@ -95,7 +89,7 @@ Fixpoint remove_loop (n : nat) (tl : Z) (newVal val : value) : prog value :=
 Definition remove_im (pos : option Z) : prog value :=
   PLen T1 (fun L =>
     let pos := match pos with Some p => p | None => L end in
-    if (pos =? L) || (pos =? wrap (L + 1)) then
+    if (pos =? L) || ((L <? maxint) && (pos =? wrap (L + 1))) then
       PGet T1 pos (fun v => PSet T1 pos VNil (Ret v))
     else if (pos <=? 0) || (pos >? L) then Fail TERange2
     else remove_loop (Z.to_nat (L - pos + 1)) L VNil VNil).
@@ -213,11 +207,9 @@ Definition tlen (st : tstate) (t : tid) : Z := match t with T1 => len1 st | T2 =
 Inductive outcome (A : Type) :=
 | ORet (a : A)
 | OFail (e : terr)
-| OSpin
 | OOutOfFuel.
 Arguments ORet {A} a.
 Arguments OFail {A} e.
-Arguments OSpin {A}.
 Arguments OOutOfFuel {A}.
 
 (* plain run: no metamethod ever raises *)
@@ -225,7 +217,6 @@ Fixpoint run {A} (p : prog A) (st : tstate) : outcome A * tstate :=
   match p with
   | Ret a => (ORet a, st)
   | Fail e => (OFail e, st)
-  | Spin => (OSpin, st)
   | OutOfFuel => (OOutOfFuel, st)
   | PLen t c => run (c (tlen st t)) st
   | PGet t k c => run (c (tget st t k)) st
@@ -244,7 +235,6 @@ Fixpoint run_log {A} (p : prog A) (st : tstate) (inj : nat) (log : list event)
   match p with
   | Ret a => (ORet a, st, log)
   | Fail e => (OFail e, st, log)
-  | Spin => (OSpin, st, log)
   | OutOfFuel => (OOutOfFuel, st, log)
   | PLen t c => run_log (c (tlen st t)) st inj (ELen t :: log)
   | PGet t k c =>
